@@ -230,3 +230,11 @@ func Short8(b []byte) string {
 	s := sha1.Sum(b)
 	return hex.EncodeToString(s[:4])
 }
+
+// ExtraBool reads back a boolean stored with Set.
+func (p *Report) ExtraBool(name string) (bool, bool) {
+	p.mu.Lock()
+	defer p.mu.Unlock()
+	v, ok := p.r.Extra[name].(bool)
+	return v, ok
+}
